@@ -576,7 +576,8 @@ class RunKind(Kind):
     name = 'run_vs_oneshot'
     header = HDR
     case_type = 'c02_case'
-    check_fn = 'c02_check'
+    check_fn = 'c02_check'         # property level: rows fed = SPEC rows in order, no empty batch, results/scores = one-shot / discriminant
+    corr_fn = 'c02_corr'           # correspondence level: exact batch boundaries = slices, batch-size value = batch_size_rule
     explain_fn = 'c02_explain'
     shard = 40
     rule = ('scared.<CPA|DPA|ANOVA|NICV|SNR|MIA><Attack|Reverse>.run(Container(read_ths_from_ram set, frame, preprocesses)) with '
@@ -845,7 +846,8 @@ class BsKind(Kind):
     name = 'batch_size_rule'
     header = HDR
     case_type = 'bs_case'
-    check_fn = 'bs_check'
+    check_fn = 'bs_prop_check'     # property level: a usable batch size (an int >= 1, one of the table's sizes) under batch_size_pos's hypotheses
+    corr_fn = 'bs_check'           # correspondence level: its value is the one of batch_size_rule
     explain_fn = 'bs_explain'
     shard = 200
     rule = ('Container(ths, frame, preprocesses).batch_size under set_batch_size int / table (sorted, unsorted, thresholds at and around '
